@@ -19,6 +19,39 @@ class AnalysisError(Exception):
     """An anchor vanished, a file does not parse, or a rule matched fewer sites than its minimum."""
 
 
+def _canonical(tree: ast.AST) -> ast.AST:
+    """Canonical form analysed by every rule: inside function bodies an annotated assignment to a local
+    (`x: T = v`) becomes the plain assignment `x = v` (annotations of locals are never evaluated; adding or
+    removing one must not change any verdict). Class-level annotated fields (dataclasses) are left alone."""
+
+    class T(ast.NodeTransformer):
+        def __init__(self):
+            self.depth = 0
+
+        def visit_FunctionDef(self, node):
+            self.depth += 1
+            self.generic_visit(node)
+            self.depth -= 1
+            return node
+
+        visit_AsyncFunctionDef = visit_FunctionDef
+
+        def visit_ClassDef(self, node):
+            d, self.depth = self.depth, 0
+            self.generic_visit(node)
+            self.depth = d
+            return node
+
+        def visit_AnnAssign(self, node):
+            self.generic_visit(node)
+            if self.depth > 0 and node.value is not None and isinstance(node.target, ast.Name):
+                new = ast.Assign(targets=[node.target], value=node.value, type_comment=None)
+                return ast.copy_location(new, node)
+            return node
+
+    return ast.fix_missing_locations(T().visit(tree))
+
+
 @dataclass
 class FuncInfo:
     name: str
@@ -153,7 +186,7 @@ class Index:
             try:
                 with open(path, encoding="utf-8") as fh:
                     src = fh.read()
-                tree = ast.parse(src, filename=path)
+                tree = _canonical(ast.parse(src, filename=path))
             except (SyntaxError, OSError, UnicodeDecodeError) as e:
                 raise AnalysisError(f"cannot parse {rel}: {e}")
             if path in extra_files:
